@@ -265,6 +265,15 @@ func (e *Engine) Load(name string) (*Template, error) {
 	var loadFailures []error
 
 	for _, loader := range e.loaders {
+		// If this loader supports modification times, take the time before reading the
+		// source: a write that lands between the two is then newer than what gets
+		// cached, and the next call notices it (the other way round, new time with old
+		// source, the change would never be seen)
+		var modified int64
+		if tsLoader, ok := loader.(TimestampAwareLoader); ok {
+			modified, _ = tsLoader.GetModifiedTime(name)
+		}
+
 		source, err := loader.Load(name)
 		if err != nil {
 			// Collect loader errors for better diagnostics
@@ -276,10 +285,7 @@ func (e *Engine) Load(name string) (*Template, error) {
 			continue
 		}
 
-		// If this loader supports modification times, get the time
-		if tsLoader, ok := loader.(TimestampAwareLoader); ok {
-			lastModified, _ = tsLoader.GetModifiedTime(name)
-		}
+		lastModified = modified
 
 		sourceLoader = loader
 		LogInfo("Template '%s' loaded from %T", name, loader)
